@@ -294,6 +294,12 @@ var c17Failing = []func() gen.Expr{
 		return &gen.EGroup{X: &gen.EBin{Op: "..", L: &gen.EGroup{X: &gen.EBin{Op: "/", L: num(1), R: num(0)}}, R: num(2)}}
 	}, // infinite bound
 	func() gen.Expr { return &gen.EBlockFn{Name: str("nosuchblock")} },
+	// divisors that are not zero but count as zero where the operation works on whole numbers
+	func() gen.Expr { return &gen.EGroup{X: &gen.EBin{Op: "%", L: num(7), R: &gen.ENum{Text: "0.5"}}} },
+	func() gen.Expr { return &gen.EGroup{X: &gen.EBin{Op: "%", L: num(7), R: str("0.25")}} },
+	func() gen.Expr {
+		return &gen.EGroup{X: &gen.EBin{Op: "%", L: num(7), R: &gen.EGroup{X: &gen.EBin{Op: "/", L: &gen.EUn{Op: "-", X: num(1)}, R: num(3)}}}}
+	},
 }
 
 var c17Carriers = []func(e gen.Expr) gen.Node{
